@@ -1,7 +1,3 @@
 import Sqljson.Audit
 import Sqljson.Props.C11
-open Sqljson
-#audit C11 [C11.and_table, C11.or_table, C11.not_table, C11.is_unknown_two_valued, C11.is_unknown_cancelled,
-  C11.kand_comm, C11.kor_comm, C11.knot_knot, C11.de_morgan_and, C11.de_morgan_or,
-  C11.and_comm_value, C11.or_comm_value, C11.and_left_error, C11.or_left_error,
-  C11.exists_lax, C11.exists_strict, C11.top_level]
+#audit_ns C11 Sqljson.C11
